@@ -28,14 +28,13 @@ Definition get_base (base_tag : str) : Z + str :=
          end
   end.
 
-Definition custom_prefix : str := s2l "u:".
 
 (* conversion of one scalar: Ok (inl value) | Ok (inr foreign-error-text) | Panic (oracle miss) *)
 Definition convert_kind (orc : oracles) (base_tag : str) (val : str) (k : kind) : res (value + str) :=
   match k with
   | KCustom =>
     if has_prefix val [33] then Ok (inr (s2l "custom: rejected " ++ val))
-    else Ok (inl (VStr (custom_prefix ++ val)))
+    else Ok (inl (VStr (rev val)))
   | KDuration =>
     match find_dur (or_dur orc) val with
     | Some (inl z) => Ok (inl (VInt z))
@@ -151,7 +150,7 @@ Fixpoint convert (orc : oracles) (base_tag : str) (val : str) (ty : vtype) (cur 
    marshalled, or an oracle miss *)
 Definition to_string_kind (orc : oracles) (base_tag : str) (k : kind) (v : value) : res (str * option str) :=
   match k, v with
-  | KCustom, VStr s => Ok ((if has_prefix s custom_prefix then skipn 2 s else s), None)
+  | KCustom, VStr s => Ok (rev s, None)
   | KDuration, VInt z =>
     match find_durfmt (or_durfmt orc) z with
     | Some t => Ok (t, None)
